@@ -70,7 +70,7 @@ pub fn check(c: &Case, ctx: &mut Ctx) -> Result<(), Failure> {
             }
         }
         let t = i + 1;
-        let tol = tau(t) * big * mscale;
+        let tol = tau(t) * big * mscale + tol_floor(n.max(p.p[1]).max(p.p[2])) * mscale;
         // reference outputs
         let mut refs: Vec<(&'static str, DD)> = Vec::with_capacity(3);
         if !c.scalar {
@@ -216,13 +216,20 @@ const BK: [Kind; 4] = [Kind::Tr, Kind::Atr, Kind::Kc, Kind::Ce];
 fn strategy(tier: Tier) -> BoxedStrategy<Case> {
     let maxlen = tier.pick(300usize, 1500usize);
     prop_oneof![
-        cfg_among(&SK, 1024, multiplier_any).prop_flat_map(move |cfg| (Just(cfg), multi_stream(Domain::AnySign, 1, maxlen))).prop_map(|(cfg, s)| Case {
+        8 => cfg_among(&SK, 1024, multiplier_any).prop_flat_map(move |cfg| (Just(cfg), multi_stream(Domain::AnySign, 1, maxlen))).prop_map(|(cfg, s)| Case {
             cfg,
             scalar: true,
             xs: xs(&s.vals),
             bars: vec![]
         }),
-        cfg_among(&BK, 1024, multiplier_any).prop_flat_map(move |cfg| { let ml = if cfg.kind == Kind::Ce { maxlen.max(3 * cfg.n() + 20) } else { maxlen }; (Just(cfg), bar_stream(false, 1, ml)) }).prop_map(|(cfg, s)| Case { cfg, scalar: false, xs: vec![], bars: s.bars }),
+        // prices around 1e-305: products and differences are subnormal, tau*M is still ~1e-317
+        1 => cfg_among(&SK, 1024, multiplier_any).prop_flat_map(move |cfg| (Just(cfg), stream(Domain::TinyAnySign, 1, maxlen))).prop_map(|(cfg, s)| Case {
+            cfg,
+            scalar: true,
+            xs: xs(&s.vals),
+            bars: vec![]
+        }),
+        8 => cfg_among(&BK, 1024, multiplier_any).prop_flat_map(move |cfg| { let ml = if cfg.kind == Kind::Ce { maxlen.max(3 * cfg.n() + 20) } else { maxlen }; (Just(cfg), bar_stream(false, 1, ml)) }).prop_map(|(cfg, s)| Case { cfg, scalar: false, xs: vec![], bars: s.bars }),
     ]
     .boxed()
 }
@@ -278,4 +285,25 @@ pub fn run(g: &mut Global) {
     let tier = g.tier;
     g.random("random", g.tier.pick(40000, 300000), &move || strategy(tier), &check);
     g.random("long", g.tier.pick(64, 800), &long_strategy, &check);
+    // ultra-long single-instance streams: beyond 2^16 inputs for every configuration, beyond 2^24 for a few
+    let lc: Vec<(Cfg, bool)> = vec![
+        (Cfg { kind: Kind::Ema, p: vec![3], m: X(0.0) }, true),
+        (Cfg { kind: Kind::Ema, p: vec![14], m: X(0.0) }, true),
+        (Cfg { kind: Kind::Atr, p: vec![5], m: X(0.0) }, false),
+        (Cfg { kind: Kind::Atr, p: vec![14], m: X(0.0) }, true),
+        (Cfg { kind: Kind::Macd, p: vec![12, 26, 9], m: X(0.0) }, true),
+        (Cfg { kind: Kind::Macd, p: vec![3, 2, 2], m: X(0.0) }, true),
+        (Cfg { kind: Kind::Kc, p: vec![10], m: X(2.0) }, false),
+        (Cfg { kind: Kind::Kc, p: vec![4], m: X(1.5) }, true),
+        (Cfg { kind: Kind::Ce, p: vec![22], m: X(3.0) }, false),
+        (Cfg { kind: Kind::Ce, p: vec![5], m: X(2.0) }, false),
+        (Cfg { kind: Kind::Tr, p: vec![], m: X(0.0) }, false),
+    ];
+    let seed = g.seed;
+    let nl = lc.len() as u64;
+    let l16 = g.tier.pick(70_000usize, 300_000usize);
+    let lc1 = lc.clone();
+    g.exhaustive("ultra_2^16", nl * g.tier.pick(2, 5), &move |i| crate::props::longrun::grid_case(&lc1, i, seed, l16), &|c, ctx| crate::props::longrun::check_long(c, ctx, "C02"));
+    let l24 = (1usize << 24) + 5000;
+    g.exhaustive("ultra_2^24", g.tier.pick(4, nl * 2), &move |i| crate::props::longrun::grid_case(&lc, i * 3 + 1, seed ^ 0x24, l24), &|c, ctx| crate::props::longrun::check_long(c, ctx, "C02"));
 }
